@@ -51,6 +51,9 @@ type c17Reader struct {
 	chunk  int
 	failAt int // -1: never; otherwise return an error when pos reaches it
 	withN  bool
+	// errWithData: the error comes back in the same call as the last bytes before failAt
+	// ((n>0, err), as io.Reader allows), not in the call after
+	errWithData bool
 }
 
 func (r *c17Reader) Read(p []byte) (int, error) {
@@ -72,6 +75,9 @@ func (r *c17Reader) Read(p []byte) (int, error) {
 	}
 	copy(p, r.b[r.pos:r.pos+n])
 	r.pos += n
+	if r.errWithData && r.failAt >= 0 && r.pos >= r.failAt && n > 0 {
+		return n, errors.New("injected read error")
+	}
 	if r.withN && r.pos >= len(r.b) {
 		return n, io.EOF // (n>0, EOF) in one call, as io.Reader allows
 	}
@@ -329,6 +335,29 @@ func (c17World) Run(prop string, ch *zsim.Choices, trace bool) *RunResult {
 			for i := 0; i < whole; i++ {
 				want = append(want, lines[i]...)
 			}
+			if whole >= 1 && k%5 == 0 {
+				// the same cut made by the medium instead of the file length: the whole stream is
+				// there but the reader fails at offset k, with the error in the call after the
+				// last good bytes or in the same call. What was delivered before the error is a
+				// prefix like any other.
+				zsim.Fault("read_error_at_cut")
+				sameCall := ch.Chance(1, 2)
+				re := guarded(len(stream), false, func() ([]byte, error) {
+					var out bytes.Buffer
+					err := cbor.Cbor2JsonManyObjects(&c17Reader{b: stream, chunk: chunk, failAt: k, errWithData: sameCall}, &out)
+					return out.Bytes(), err
+				})
+				var wantR []byte
+				for i := 0; i < whole; i++ {
+					wantR = append(wantR, lines[i]...)
+				}
+				if v := totalityViolation(re, prefix, "reader failing at offset "+fmt.Sprint(k)); v != nil {
+					zsim.Fail(v.Clause, "%s", v.Msg)
+				}
+				if !bytes.HasPrefix(re.out, wantR) {
+					zsim.Fail("C17.prefix", "stream of %d bytes whose reader fails at offset %d (error returned together with the last bytes: %v; %d whole events delivered before it): the output does not start with those events decoded (first difference at byte %d)\n got  %s\n want %s", len(stream), k, sameCall, whole, firstDiff(re.out, wantR), clip(re.out, 300), clip(wantR, 300))
+				}
+			}
 			if whole >= 1 && (!partial || k%3 == 0) {
 				// the convenience entry points have no error result: what they return for a cut
 				// stream still starts with (or, at a boundary, is) the decoded whole events
@@ -410,6 +439,43 @@ func (c17World) Run(prop string, ch *zsim.Choices, trace bool) *RunResult {
 				if v := totalityViolation(r, buf, fmt.Sprintf("event {\"k\": tag %x payload %x}", tag, payload)); v != nil {
 					zsim.Fail(v.Clause, "%s", v.Msg)
 				}
+			}
+		}
+
+		// (a3) a tagged byte string that holds a tagged byte string that holds ... with every
+		// length correct: a decoder that looks inside embedded items (tag 24, the standard tag for
+		// an encoded CBOR data item) must not pay for the whole remainder at every level
+		if ch.Chance(1, 8) {
+			tagNo := byte(24)
+			if ch.Chance(1, 2) {
+				tagNo = byte(ch.Intn(256))
+			}
+			depth := []int{50, 800, 6000}[ch.Intn(3)]
+			inner := []byte{0x01}
+			for d := 0; d < depth; d++ {
+				var hdr []byte
+				switch {
+				case len(inner) < 24:
+					hdr = []byte{0xd8, tagNo, 0x40 | byte(len(inner))}
+				case len(inner) < 256:
+					hdr = []byte{0xd8, tagNo, 0x58, byte(len(inner))}
+				case len(inner) < 65536:
+					hdr = []byte{0xd8, tagNo, 0x59, byte(len(inner) >> 8), byte(len(inner))}
+				}
+				if hdr == nil {
+					break
+				}
+				inner = append(hdr, inner...)
+			}
+			buf := append(append([]byte{0xbf, 0x61, 'k'}, inner...), 0xff)
+			zsim.Fault("nested_embedding")
+			r := guarded(len(buf), true, func() ([]byte, error) {
+				var out bytes.Buffer
+				err := cbor.Cbor2JsonManyObjects(&c17Reader{b: buf, chunk: 0, failAt: -1}, &out)
+				return out.Bytes(), err
+			})
+			if v := totalityViolation(r, buf, fmt.Sprintf("tag %d byte strings nested %d deep with consistent lengths", tagNo, depth)); v != nil {
+				zsim.Fail(v.Clause, "%s", v.Msg)
 			}
 		}
 
